@@ -1,4 +1,4 @@
-\* design check, three slots
+\* design check, three slots (the algebraic laws of extract/mix are checked in the two-slot universes: 729 pairs of gathers per state are too slow here)
 INIT Init
 NEXT FreeNext
 CONSTANTS
@@ -16,8 +16,6 @@ CONSTANTS
 INVARIANT TypeOK
 INVARIANT HistoryDetermined
 INVARIANT StepIsDist
-INVARIANT ExtractLaws
-INVARIANT MixLaws
 INVARIANT WindowIsLastK
 INVARIANT FullIsSteps
 CHECK_DEADLOCK FALSE
